@@ -24,7 +24,9 @@ CONSTANTS Variant
 
 Shapes == [attrs: {"sorted", "unsorted"}, ncerts: 0..2, extraCert: BOOLEAN, crl: BOOLEAN, key: {"rsa", "ecdsa", "pss"},
            nullParam: BOOLEAN, timeForm: {"utc", "gen", "none"}, multiAttr: BOOLEAN, nested: BOOLEAN,
-           algs: {"one", "two-sorted", "two-unsorted"}, ber: {"der", "longlen", "indef"}]
+           algs: {"one", "two-sorted", "two-unsorted"}, ber: {"der", "longlen", "indef"},
+           payload: {"text", "octetlike"}]   \* "octetlike": the content octets themselves happen to parse as one DER OCTET STRING (04 len ...);
+                                             \* what is digested must still be exactly the octets that are emitted
 Ops == {"RoundTrip", "Detach", "Embed", "EmbedDetach", "Resign"}
 
 \* the parts of a SignedData value
